@@ -384,6 +384,52 @@ pub fn run(ctx: &Ctx) -> i32 {
             conform(ctx, "tail-pixels", &case, &f, &want);
         });
     }
+    // indexed sprites whose palette ids do not run from 0: one new-format chunk starting at `first`, or one legacy packet with a skip
+    if ctx.wants_family("sparse-palette") {
+        let mut cases: Vec<(u32, usize, usize, u16, usize)> = Vec::new();
+        for first in [0u32, 1, 2, 5, 100, 248] {
+            for n in [1usize, 2, 4, 6] {
+                for form in [0usize, 1] {
+                    for mode in [0u16, 1] {
+                        for tsel in 0..3usize {
+                            cases.push((first, n, form, mode, tsel));
+                        }
+                    }
+                }
+            }
+        }
+        ctx.family("sparse-palette", cases.len() as u64, "indexed 3x2 sprites whose palette has 1/2/4/6 entries with ids starting at 0/1/2/5/100/248 (a new-format chunk with that first index, or a legacy 0x0004 chunk whose only packet skips that many entries); two layers (Normal / Multiply above, layer opacity 200) whose cels use every palette id, the highest ones included; transparent index = lowest / highest / a middle id", true);
+        cases.par_iter().for_each(|(first, n, form, mode, tsel)| {
+            let case = || format!("first={} n={} form={} mode={} t#{}", first, n, form, mode, tsel);
+            if !ctx.wants("sparse-palette", &case) {
+                return;
+            }
+            let ids: Vec<u8> = (0..*n as u32).map(|k| (first + k) as u8).collect();
+            let t = match *tsel {
+                0 => ids[0],
+                1 => ids[ids.len() - 1],
+                _ => ids[ids.len() / 2],
+            };
+            let fmt = Fmt::Indexed(t);
+            let mut f = gen::file(3, 2, &fmt, &[10]);
+            if *form == 0 {
+                f.frames[0].push(new_palette(*first, pal_entries(*n, 5)));
+            } else {
+                let colors: Vec<[u8; 3]> = (0..*n as u8).map(|k| [10 + 40 * k, 200 - 30 * k, 7 * k + 1]).collect();
+                f.frames[0].push(Body::OldPalette04(old_palette(vec![(*first as u8, colors)])));
+            }
+            f.frames[0].push(Body::Layer(Layer::image("back")));
+            let mut top = Layer::image("top");
+            top.blend = *mode;
+            top.opacity = 200;
+            f.frames[0].push(Body::Layer(top));
+            let back: Vec<u8> = (0..6).map(|k| ids[ids.len() - 1 - (k % ids.len())]).collect();
+            let front: Vec<u8> = (0..6).map(|k| ids[(k + 1) % ids.len()]).collect();
+            f.frames[0].push(raw_cel(0, 0, 0, 255, 3, 2, back));
+            f.frames[0].push(zcel(1, 0, 0, 255, 3, 2, front, 6));
+            conform(ctx, "sparse-palette", &case, &f, &want);
+        });
+    }
     // a tilemap layer with non-square tiles under a blended image layer
     if ctx.wants_family("tiles-under") {
         let tsz: [(u16, u16); 5] = [(2, 4), (1, 3), (4, 2), (3, 1), (2, 2)];
